@@ -56,35 +56,46 @@ def r2_content_type(chk: Check) -> None:
     P = chk.project
     for rel, cls in ((REQ, "RequestsTransport"), (WSGI, "WSGITransport")):
         fn = P.func(f"{rel}:{cls}.serialize_case")
-        stores = [n for n in walk_body(fn.node) if isinstance(n, ast.Assign) and isinstance(n.targets[0], ast.Subscript) and dotted(n.targets[0].value) == "final_headers" and (const_str(n.targets[0].slice) or "").lower() == "content-type"]
+        hdr_vars = defined_by(fn, "$v = prepare_headers(...)")
+        if not hdr_vars:
+            chk.violation("C06.R2", fn, "headers = prepare_headers(case, headers)", "request headers are not built from the case (no prepare_headers call)", fn.loc())
+            continue
+        stores = [n for n in walk_body(fn.node) if isinstance(n, ast.Assign) and isinstance(n.targets[0], ast.Subscript) and dotted(n.targets[0].value) in hdr_vars and (const_str(n.targets[0].slice) or "").lower() == "content-type"]
         if not stores:
             chk.violation("C06.R2", fn, "Content-Type = case.media_type", "the Content-Type header is never derived from the case's media type", fn.loc())
         else:
             v = stores[0].value
             src = unparse(v)
-            ok = src == "media_type" and any(unparse(val) == "case.media_type" for val in local_value(fn, "media_type")) or src == "case.media_type"
-            chk.decide(ok, "C06.R2", fn, "Content-Type = case.media_type", f"Content-Type is set from `{src}`", fn.loc(stores[0]))
-            t = " and ".join(unparse(a.test, 300) for a in ancestors(stores[0]) if isinstance(a, ast.If))
-            chk.expect("media_type" in t and "isinstance(case.body, NotSet)" in t, "C06.R2", fn, "Content-Type only when a body is present", f"guard `{t}`", fn.loc(stores[0]))
+            chk.decide("case.media_type" in canon(fn, v), "C06.R2", fn, "Content-Type = case.media_type", f"Content-Type is set from `{src}`", fn.loc(stores[0]))
+            t = " and ".join(x for a in ancestors(stores[0]) if isinstance(a, ast.If) for x in sorted(canon(fn, a.test)))
+            chk.expect("case.media_type" in t and "isinstance(case.body, NotSet)" in t, "C06.R2", fn, "Content-Type only when a body is present", f"guard `{t}`", fn.loc(stores[0]))
         ser = [c for c in body_calls(fn) if unparse(c.func) == "self._get_serializer"]
-        chk.decide(bool(ser) and unparse(ser[0].args[0]) == "media_type", "C06.R2", fn, "serializer chosen by the case's media type", "serializer lookup uses something else than the case's media type", fn.loc())
-        body = [c for c in body_calls(fn) if isinstance(c.func, ast.Name) and c.func.id == "serializer"]
-        chk.decide(bool(body) and len(body[0].args) == 2 and unparse(body[0].args[1]) == "prepare_body(case)", "C06.R2", fn, "serializer(context, prepare_body(case))", "the serializer does not receive the case's body", fn.loc())
-        hdr = [v for _, v in assignments_to(fn.node, "final_headers") if v is not None]
-        chk.decide(bool(hdr) and unparse(hdr[0]) == "prepare_headers(case, headers)", "C06.R2", fn, "headers = prepare_headers(case, headers)", "request headers are not built from the case", fn.loc())
+        chk.decide(bool(ser) and "case.media_type" in canon(fn, ser[0].args[0]), "C06.R2", fn, "serializer chosen by the case's media type", "serializer lookup uses something else than the case's media type", fn.loc())
+        ser_vars = defined_by(fn, "$v = self._get_serializer($_)")
+        body = [c for c in body_calls(fn) if isinstance(c.func, ast.Name) and c.func.id in ser_vars]
+        chk.decide(bool(body) and len(body[0].args) == 2 and "prepare_body(case)" in canon(fn, body[0].args[1]), "C06.R2", fn, "serializer(context, prepare_body(case))", "the serializer does not receive the case's body", fn.loc())
+        hdr = [n.value for n, _b in pfind("$v = prepare_headers(...)", fn.node)]  # type: ignore[attr-defined]
+        chk.decide(bool(hdr) and pmatch("prepare_headers(case, $h)", hdr[0]) is not None and any("kwargs.get('headers')" in c_ for c_ in canon(fn, hdr[0].args[1])), "C06.R2", fn, "headers = prepare_headers(case, headers)", "request headers are not built from the case and the caller's headers", fn.loc())
     req = P.func(f"{REQ}:RequestsTransport.serialize_case")
-    d = next((v for _, v in assignments_to(req.node, "data") if isinstance(v, ast.Dict)), None)
-    have = {const_str(k): unparse(v) for k, v in zip(d.keys, d.values) if k is not None} if d is not None else {}
-    for k, v in (("method", "case.method"), ("url", "url"), ("cookies", "case.cookies"), ("headers", "final_headers"), ("params", "params")):
-        chk.decide(have.get(k) == v, "C06.R2", req, f"request[{k!r}] = {v}", f"`{k}` is taken from {have.get(k)}", req.loc())
-    pv = [v for _, v in assignments_to(req.node, "params") if v is not None]
-    chk.decide(any(unparse(v) == "case.query" for v in pv), "C06.R2", req, "params = case.query", "query string does not come from the case", req.loc())
-    uv = [v for _, v in assignments_to(req.node, "url") if v is not None]
-    chk.decide(bool(uv) and unparse(uv[0]) == "prepare_url(case, base_url)", "C06.R2", req, "url = prepare_url(case, base_url)", "URL is not built from the case's path and parameters", req.loc())
+    def request_dict(f: FuncInfo, must: str) -> dict[str, set[str]] | None:
+        d_ = next((n for n in walk_body(f.node) if isinstance(n, ast.Dict) and any(const_str(k) == "method" for k in n.keys if k is not None) and any(const_str(k) == must for k in n.keys if k is not None)), None)
+        if d_ is None:
+            return None
+        return {const_str(k) or "?": canon(f, v) for k, v in zip(d_.keys, d_.values) if k is not None}
+
+    have = request_dict(req, "url")
+    if have is None:
+        chk.undecided("C06.R2", req, "request dict", "the mapping with method/url/... is not recognised", req.loc())
+    else:
+        for k, v in (("method", "case.method"), ("url", "prepare_url(case, kwargs.get('base_url'))"), ("cookies", "case.cookies"), ("params", "case.query")):
+            chk.decide(v in have.get(k, set()), "C06.R2", req, f"request[{k!r}] = {v}", f"`{k}` is taken from {sorted(have.get(k, set()))[:3]}", req.loc())
+        chk.decide(any(c_.startswith("prepare_headers(case,") for c_ in have.get("headers", set())), "C06.R2", req, "request['headers'] = prepare_headers(case, ...)", f"`headers` is taken from {sorted(have.get('headers', set()))[:3]}", req.loc())
     w = P.func(f"{WSGI}:WSGITransport.serialize_case")
-    d = next((v for _, v in assignments_to(w.node, "data") if isinstance(v, ast.Dict)), None)
-    have = {const_str(k): unparse(v) for k, v in zip(d.keys, d.values) if k is not None} if d is not None else {}
-    chk.decide(have.get("method") == "case.method" and have.get("query_string") == "case.query" and "prepare_path(case.path, case.path_parameters)" in have.get("path", ""), "C06.R2", w, "WSGI: method / path / query from the case", f"data = {have}", w.loc())
+    have = request_dict(w, "path")
+    if have is None:
+        chk.undecided("C06.R2", w, "WSGI request dict", "the mapping with method/path/... is not recognised", w.loc())
+    else:
+        chk.decide("case.method" in have.get("method", set()) and "case.query" in have.get("query_string", set()) and any("prepare_path(case.path, case.path_parameters)" in c_ for c_ in have.get("path", set())), "C06.R2", w, "WSGI: method / path / query from the case", f"data = { {k: sorted(v)[:2] for k, v in have.items()} }", w.loc())
 
 
 def r3_quote_all(chk: Check) -> None:
@@ -105,10 +116,10 @@ def r3_quote_all(chk: Check) -> None:
         # who-must-call: the template is the only place where coverage-phase path parameters can be encoded
         chk.violation("C06.R3", ts, "coverage template: path_parameters through quote_all", "Template._serialize no longer calls quote_all: coverage-phase path parameters reach the URL unencoded", ts.loc())
     else:
-        chk.expect("quote_all(value)" in t, "C06.R3", ts, "coverage template: path_parameters through quote_all", "coverage-phase path parameters are not percent-encoded", ts.loc())
+        chk.expect(any(phas("quote_all($v)", i.body) for i in ifs), "C06.R3", ts, "coverage template: path_parameters through quote_all", "coverage-phase path parameters are not percent-encoded", ts.loc())
     qa = P.func("specs/openapi/_hypothesis.py:quote_all")
     t = unparse(qa.node, 100000)
-    chk.expect("'%2E'" in t and "'%2E%2E'" in t and "value == '.'" in t and "value == '..'" in t, "C06.R3", qa, "'.' and '..' encoded as %2E / %2E%2E", "dot segments are sent verbatim and collapse the path", qa.loc())
+    chk.expect("'%2E'" in t and "'%2E%2E'" in t and phas("$v == '.'", qa.node) and phas("$v == '..'", qa.node), "C06.R3", qa, "'.' and '..' encoded as %2E / %2E%2E", "dot segments are sent verbatim and collapse the path", qa.loc())
     # every string value is replaced by an encoded one on every path through the loop body
     g = cfg_of(qa)
     loop = next((n for n in walk_body(qa.node) if isinstance(n, ast.For) and "parameters" in unparse(n.iter)), None)
@@ -116,7 +127,7 @@ def r3_quote_all(chk: Check) -> None:
         chk.undecided("C06.R3", qa, "every string value is stored encoded", "loop over the parameters not found", qa.loc())
     else:
         head = [n.id for n in g.live() if n.kind == "for" and n.ast is loop]
-        str_tests = [(tid, e) for tid, e in guard_tests(g, lambda e: "isinstance(value, str)" in unparse(e))]
+        str_tests = [(tid, e) for tid, e in guard_tests(g, lambda e: phas("isinstance($v, str)", e))]
         stores = [n.id for n in g.live() if n.kind == "stmt" and isinstance(n.ast, ast.Assign) and isinstance(n.ast.targets[0], ast.Subscript) and dotted(n.ast.targets[0].value) == "parameters"]
         if not str_tests:
             chk.undecided("C06.R3", qa, "every string value is stored encoded", "isinstance(value, str) test not found", qa.loc())
@@ -148,7 +159,7 @@ def r3_quote_all(chk: Check) -> None:
     pu = P.func("transport/prepare.py:prepare_url")
     t = unparse(pu.node, 100000)
     chk.expect("prepare_path(case.path, case.path_parameters)" in t, "C06.R3", pu, "URL path = template formatted with the case's path parameters", "path template is not filled from the case", pu.loc())
-    chk.expect("unquote(urljoin(base_url, quote(path)))" in t, "C06.R3", pu, "join does not double-encode (quote then unquote around urljoin)", "percent-encoded values are encoded twice / dot segments resolved", pu.loc())
+    chk.expect(phas("unquote(urljoin($b, quote($p)))", pu.node), "C06.R3", pu, "join does not double-encode (quote then unquote around urljoin)", "percent-encoded values are encoded twice / dot segments resolved", pu.loc())
 
 
 def r3b_template_ownership(chk: Check) -> None:
@@ -156,11 +167,12 @@ def r3b_template_ownership(chk: Check) -> None:
     P = chk.project
     fn = P.func("generation/hypothesis/builder.py:Template._serialize")
     g = cfg_of(fn)
-    loop = next((n for n in walk_body(fn.node) if isinstance(n, ast.For) and "kwargs.items()" in unparse(n.iter)), None)
+    loop = next((n for n in walk_body(fn.node) if isinstance(n, ast.For) and pmatch("$k.items()", n.iter) is not None and name_of(pmatch("$k.items()", n.iter) or {}, "k") in params_of(fn.node)), None)
     if loop is None or not isinstance(loop.target, ast.Tuple):
         raise Undecided("loop over kwargs.items() not found in Template._serialize")
     var = loop.target.elts[1].id  # type: ignore[attr-defined]
-    mutators = [c for s in loop.body for c in calls(s) if (isinstance(c.func, ast.Name) and c.func.id in ("serializer", "quote_all")) and any(isinstance(a, ast.Name) and a.id == var for a in c.args)]
+    ser_vars = set(defined_by(fn, "$v = self._serializers.get($_)")) | {"quote_all"}
+    mutators = [c for s in loop.body for c in calls(s) if (isinstance(c.func, ast.Name) and c.func.id in ser_vars) and any(isinstance(a, ast.Name) and a.id == var for a in c.args)]
     copies = [n.id for n in g.live() if n.kind == "stmt" and isinstance(n.ast, ast.Assign) and any(isinstance(t_, ast.Name) and t_.id == var for t_ in n.ast.targets)
               and (unparse(n.ast.value) in (f"{var}.copy()", f"dict({var})", f"deepclone({var})", f"copy.deepcopy({var})", f"deepcopy({var})") or (isinstance(n.ast.value, ast.Dict) and unparse(n.ast.value) == "{**" + var + "}"))]
     head = [n.id for n in g.live() if n.kind == "for" and n.ast is loop]
@@ -194,12 +206,18 @@ def r4_header_writers(chk: Check) -> None:
     allowed_keys = {"User-Agent", "SCHEMATHESIS_TEST_CASE_HEADER", "Content-Type", "content-type"}
     for ref in ("transport/prepare.py:prepare_headers", f"{REQ}:RequestsTransport.serialize_case", f"{WSGI}:WSGITransport.serialize_case"):
         fn = P.func(ref)
+        # the header mapping: built from case.headers (prepare_headers) or obtained from prepare_headers (transports)
+        hv = set(defined_by(fn, "$v = prepare_headers(...)")) | {name_of(b, "v") for n_, b in pfind("$v = $X", fn.node) if "case.headers" in unparse(b["X"], 300)}
+        hv.discard(None)
+        if not hv:
+            chk.undecided("C06.R4", fn, "header mapping", "the variable holding the request headers is not recognised", fn.loc())
+            continue
         for n in walk_body(fn.node):
             key = None
             how = None
-            if isinstance(n, ast.Assign) and isinstance(n.targets[0], ast.Subscript) and dotted(n.targets[0].value) == "final_headers":
+            if isinstance(n, ast.Assign) and isinstance(n.targets[0], ast.Subscript) and dotted(n.targets[0].value) in hv:
                 key, how = n.targets[0].slice, "item write"
-            elif isinstance(n, ast.Call) and dotted(n.func) in ("final_headers.setdefault", "final_headers.update", "final_headers.__setitem__"):
+            elif isinstance(n, ast.Call) and isinstance(n.func, ast.Attribute) and dotted(n.func.value) in hv and n.func.attr in ("setdefault", "update", "__setitem__"):
                 how = n.func.attr  # type: ignore[union-attr]
                 key = n.args[0] if n.args else None
             else:
@@ -207,10 +225,10 @@ def r4_header_writers(chk: Check) -> None:
             ktext = const_str(key) or unparse(key)
             construct = f"final_headers {how}: {ktext}"
             if how == "update":
-                chk.decide(ktext == "headers", "C06.R4", fn, construct, f"headers are bulk-updated from `{ktext}`", fn.loc(n))
+                chk.decide(isinstance(key, ast.Name) and key.id in params_of(fn.node) and "header" in key.id, "C06.R4", fn, construct, f"headers are bulk-updated from `{ktext}`", fn.loc(n))
             elif ktext in allowed_keys:
                 chk.ok("C06.R4", fn, construct, "", fn.loc(n))
-            elif how == "setdefault" and ktext == "key" and any(isinstance(a, ast.For) and "additional_headers" in unparse(a.iter) for a in ancestors(n)):
+            elif how == "setdefault" and isinstance(key, ast.Name) and any(isinstance(a, ast.For) and key.id in names_in(a.target) and any(".pop('headers'" in c_ for c_ in canon(fn, a.iter)) for a in ancestors(n)):
                 chk.ok("C06.R4", fn, construct, "serializer-supplied header, only when absent", fn.loc(n))
             else:
                 chk.violation("C06.R4", fn, construct, "an additional header is put on every request: the wire request is no longer 'the generated case and nothing else'", fn.loc(n))
@@ -243,8 +261,8 @@ def r5_cookie_pair(chk: Check) -> None:
                       "if the call raises (the WSGI application errors), the cookies stay in the reused client and ride on every following request: something other than the generated case is sent",
                       fn.loc(sets[0]), g.describe_path(w, fn.module.relpath))
     send = P.func(f"{WSGI}:WSGITransport.send")
-    t = unparse(send.node, 100000)
-    chk.expect("cookie_handler(client, cookies)" in t and "{**(case.cookies or {}), **(cookies or {})}" in t, "C06.R5", send, "WSGI send wraps client.open in cookie_handler(case cookies + explicit cookies)", "cookies of the case are not sent through WSGI", send.loc())
+    ch = [c for c in body_calls(send) if last_attr(c) == "cookie_handler" and len(c.args) == 2]
+    chk.expect(bool(ch) and any("**(case.cookies or {})" in c_ for c_ in canon(send, ch[0].args[1])), "C06.R5", send, "WSGI send wraps client.open in cookie_handler(case cookies + explicit cookies)", "cookies of the case are not sent through WSGI", send.loc())
 
 
 def rules(tier: str) -> list:  # type: ignore[type-arg]
